@@ -109,6 +109,41 @@ def runN (F : TOps) (clk : Nat → Nat) : Nat → St → Nat → St
 def pollAt (F : TOps) (clk : Nat → Nat) (s : St) (n : Nat) : Poll :=
   (check F (runN F clk n s 0) (clk n)).2
 
+/-! ### polling points
+
+`execute_instructions` consults the poller before EVERY instruction, whatever its kind. The kinds
+below are the ones that can prolong an execution: a backwards jump, a call instruction, an operator
+instruction whose overload pushes a frame directly (`-x` with `@negate`, `x < y` with `@<`, `x[i]`
+with `@index`, …: no jump, no call instruction), and everything else. `polls` says before which
+kinds the poller is consulted; the code is `pollsEvery`. -/
+
+inductive InstrKind where
+  | jumpBack | call | opPush | other
+  deriving DecidableEq, Repr
+
+/-- the code: every instruction is a polling point -/
+def pollsEvery : InstrKind → Bool := fun _ => true
+
+/-- the entry loop over an instruction stream: `some i` = the timeout is reported before
+instruction number `i`; `none` = the stream ends (or goes on) without a timeout. Instruction `j`
+would read `clk j`. -/
+def runInstrs (F : TOps) (polls : InstrKind → Bool) (clk : Nat → Nat) : List InstrKind → St → Nat → Option Nat
+  | [], _, _ => none
+  | k :: ks, s, i =>
+    if polls k then
+      match check F s (clk i) with
+      | (_, .timeout) => some i
+      | (s', _) => runInstrs F polls clk ks s' (i + 1)
+    else runInstrs F polls clk ks s (i + 1)
+
+/-- the same over `n` checks, one per instruction (the shape `runN` / `pollAt` talk about) -/
+def firstTimeout (F : TOps) (clk : Nat → Nat) : Nat → St → Nat → Option Nat
+  | 0, _, _ => none
+  | n + 1, s, i =>
+    match check F s (clk i) with
+    | (_, .timeout) => some i
+    | (s', _) => firstTimeout F clk n s' (i + 1)
+
 /-- integer skeleton of the interval update: the float computation returned at most the exact
 quotient `interval · min(target, remaining) / elapsed` plus one. This is the only float fact
 `bounded_slack` needs; the harness evaluates it on every observed clock read. -/
